@@ -205,11 +205,16 @@ func paramsSection(x *h.X) {
 
 // bytesFields collects every bytes field of the wire form of a key (recursing into sub-messages and
 // into nested KeyData values).
-func bytesFields(url string, value []byte, out *[][]byte) error {
+type bfield struct {
+	name string
+	b    []byte
+}
+
+func bytesFields(url string, value []byte, out *[]bfield) error {
 	name := protoreflect.FullName(strings.TrimPrefix(url, "type.googleapis.com/"))
 	mt, err := protoregistry.GlobalTypes.FindMessageByName(name)
 	if err != nil {
-		*out = append(*out, value)
+		*out = append(*out, bfield{"value", value})
 		return nil
 	}
 	m := mt.New().Interface()
@@ -219,7 +224,7 @@ func bytesFields(url string, value []byte, out *[][]byte) error {
 	return walk(m.ProtoReflect(), out)
 }
 
-func walk(m protoreflect.Message, out *[][]byte) error {
+func walk(m protoreflect.Message, out *[]bfield) error {
 	if len(m.GetUnknown()) > 0 {
 		return fmt.Errorf("%s carries unknown fields %x", m.Descriptor().FullName(), m.GetUnknown())
 	}
@@ -233,7 +238,7 @@ func walk(m protoreflect.Message, out *[][]byte) error {
 		case fd.IsList():
 			return true
 		case fd.Kind() == protoreflect.BytesKind:
-			*out = append(*out, v.Bytes())
+			*out = append(*out, bfield{string(fd.Name()), v.Bytes()})
 		case fd.Kind() == protoreflect.MessageKind:
 			if e := walk(v.Message(), out); e != nil {
 				err = e
@@ -252,9 +257,12 @@ func trimZeros(b []byte) []byte {
 	return b
 }
 
-func hasField(fields [][]byte, m keycat.Mat) bool {
+func hasField(fields []bfield, m keycat.Mat) bool {
 	for _, f := range fields {
-		if bytes.Equal(f, m.B) || (m.BigInt && bytes.Equal(trimZeros(f), trimZeros(m.B))) {
+		if m.Field != "" && f.name != m.Field {
+			continue
+		}
+		if bytes.Equal(f.b, m.B) || (m.BigInt && bytes.Equal(trimZeros(f.b), trimZeros(m.B))) {
 			return true
 		}
 	}
@@ -264,7 +272,7 @@ func hasField(fields [][]byte, m keycat.Mat) bool {
 // materialPresent: every secret byte string (and the public material in one of its representations)
 // is a bytes field of the wire form.
 func materialPresent(url string, kd *tinkpb.KeyData, mats []keycat.Mat, public bool) error {
-	var fields [][]byte
+	var fields []bfield
 	if err := bytesFields(url, kd.GetValue(), &fields); err != nil {
 		return err
 	}
@@ -281,7 +289,7 @@ func materialPresent(url string, kd *tinkpb.KeyData, mats []keycat.Mat, public b
 		}
 		if m.Secret && public {
 			for _, f := range fields {
-				if len(m.B) >= 8 && bytes.Contains(f, m.B) {
+				if len(m.B) >= 8 && bytes.Contains(f.b, m.B) {
 					return fmt.Errorf("public key serialisation contains secret %s", m.Name)
 				}
 			}
@@ -295,7 +303,7 @@ func materialPresent(url string, kd *tinkpb.KeyData, mats []keycat.Mat, public b
 		}
 		if !m.Secret && m.Name == "public" && len(m.B) > 0 && m.B[0] == 4 && (len(m.B) == 65 || len(m.B) == 97 || len(m.B) == 133) {
 			n := (len(m.B) - 1) / 2
-			xy := hasField(fields, keycat.Mat{B: m.B[1 : 1+n], BigInt: true}) && hasField(fields, keycat.Mat{B: m.B[1+n:], BigInt: true})
+			xy := hasField(fields, keycat.Mat{B: m.B[1 : 1+n], BigInt: true, Field: "x"}) && hasField(fields, keycat.Mat{B: m.B[1+n:], BigInt: true, Field: "y"})
 			if !xy && !hasField(fields, m) {
 				return fmt.Errorf("public point not found in the wire form (neither as point nor as x, y)")
 			}
@@ -432,18 +440,36 @@ func keysSection(x *h.X) {
 	shard := x.Choose("shard", nShards)
 	th := x.Thorough()
 	nkeys := 0
-	var prevKey, prevPub key.Key
-	var prevKD, prevPubKD *tinkpb.KeyData
-	var prevDesc string
-	var prevID uint32
-	var prevVar ref.KSVariant
-	doCases := func(cases []*keycat.KeyCase) {
+	type done struct {
+		kc      *keycat.KeyCase
+		kd, pkd *tinkpb.KeyData
+	}
+	// consistent: Equal <=> identical wire form, ID requirement and prefix type
+	consistent := func(a, b done) {
+		if a.kc.Desc == b.kc.Desc {
+			return
+		}
+		x.Eval(1)
+		eq := a.kc.Key.Equal(b.kc.Key) && b.kc.Key.Equal(a.kc.Key)
+		same := proto.Equal(a.kd, b.kd) && a.kc.ID == b.kc.ID && a.kc.Variant == b.kc.Variant
+		if eq != same {
+			failf(x, "key-equal-inconsistent:"+f.Name, "[%s] vs [%s]: Equal=%v but wire forms identical=%v", a.kc.Desc, b.kc.Desc, eq, same)
+		}
+		if a.kc.Pub != nil && b.kc.Pub != nil && a.pkd != nil && b.pkd != nil {
+			eq := a.kc.Pub.Equal(b.kc.Pub) && b.kc.Pub.Equal(a.kc.Pub)
+			same := proto.Equal(a.pkd, b.pkd) && a.kc.ID == b.kc.ID && a.kc.Variant == b.kc.Variant
+			if eq != same {
+				failf(x, "key-equal-inconsistent:"+f.Name, "[%s] vs [%s] (public halves): Equal=%v but wire forms identical=%v", a.kc.Desc, b.kc.Desc, eq, same)
+			}
+		}
+	}
+	doCases := func(cases []*keycat.KeyCase) []done {
+		var out []done
 		for _, kc := range cases {
 			nkeys++
 			if kc.Key == nil {
 				// public-only case (no private key object constructible for these parameters)
 				checkKey(x, kc, true)
-				prevKey = nil
 				continue
 			}
 			kd, ok := checkKey(x, kc, false)
@@ -464,39 +490,39 @@ func keysSection(x *h.X) {
 				ok = ok && pok
 			}
 			if !ok {
-				prevKey = nil
 				continue
 			}
-			// Equal must be consistent with the wire form (key data and ID requirement).
-			if prevKey != nil && prevDesc != kc.Desc {
-				eq := kc.Key.Equal(prevKey) && prevKey.Equal(kc.Key)
-				same := proto.Equal(kd, prevKD) && prevID == kc.ID && prevVar == kc.Variant
-				if eq != same {
-					failf(x, "key-equal-inconsistent:"+f.Name, "[%s] vs [%s]: Equal=%v but wire forms identical=%v", kc.Desc, prevDesc, eq, same)
-				}
-				if kc.Pub != nil && prevPub != nil {
-					eq := kc.Pub.Equal(prevPub) && prevPub.Equal(kc.Pub)
-					same := proto.Equal(pkd, prevPubKD) && prevID == kc.ID && prevVar == kc.Variant
-					if eq != same {
-						failf(x, "key-equal-inconsistent:"+f.Name, "[%s] vs [%s] (public halves): Equal=%v but wire forms identical=%v", kc.Desc, prevDesc, eq, same)
-					}
-				}
-				x.Eval(1)
+			d := done{kc, kd, pkd}
+			// neighbours within the same ID: differ in material only
+			if len(out) > 0 {
+				consistent(out[len(out)-1], d)
 			}
-			prevKey, prevPub, prevKD, prevPubKD, prevDesc, prevID, prevVar = kc.Key, kc.Pub, kd, pkd, kc.Desc, kc.ID, kc.Variant
+			out = append(out, d)
+		}
+		return out
+	}
+	// across key IDs: same parameters and material, different ID requirement
+	across := func(prev, cur []done) {
+		for i := range cur {
+			if i < len(prev) {
+				consistent(prev[i], cur[i])
+			}
 		}
 	}
 	if f.KeysOnly != nil {
 		if shard != 0 {
 			return
 		}
+		var prev []done
 		for _, id := range ids(x) {
 			cases, err := f.KeysOnly(id, th)
 			if err != nil {
 				failf(x, "key-construct:"+f.Name, "%s id=%#x: %v", f.Name, id, err)
 				return
 			}
-			doCases(cases)
+			cur := doCases(cases)
+			across(prev, cur)
+			prev = cur
 		}
 	} else {
 		sh := &keycat.Shard{I: shard, N: nShards}
@@ -512,6 +538,7 @@ func keysSection(x *h.X) {
 			if !ref.KSHasIDRequirement(v) {
 				idl = idl[:1]
 			}
+			var prev []done
 			for _, id := range idl {
 				cases, err := f.Keys(p, v, id, th)
 				if err != nil {
@@ -522,7 +549,9 @@ func keysSection(x *h.X) {
 					x.Outcome("keys/parameter-point-outside-key-domain")
 					return
 				}
-				doCases(cases)
+				cur := doCases(cases)
+				across(prev, cur)
+				prev = cur
 			}
 		})
 	}
@@ -798,7 +827,7 @@ func keysetSection(x *h.X) {
 		}
 	default:
 		k := 3
-		if th {
+		if th && n == 2 {
 			k = 9
 		}
 		base := (u1*7 + idx[1]*13 + prim*5 + int(st[0])*3 + int(st[n-1])) % len(ios)
